@@ -2,7 +2,7 @@
 
 use std::{fmt, str::FromStr};
 
-use percent_encoding::{percent_decode_str, percent_encode};
+use percent_encoding::{percent_decode_str, percent_encode, NON_ALPHANUMERIC};
 use ruma_identifiers_validation::{
     error::{MatrixIdError, MatrixToError, MatrixUriError},
     Error,
@@ -520,9 +520,9 @@ impl fmt::Display for MatrixUri {
 
         if let Some(action) = self.action() {
             f.write_str(if first { "?action=" } else { "&action=" })?;
-            for part in url::form_urlencoded::byte_serialize(action.as_str().as_bytes()) {
-                f.write_str(part)?;
-            }
+            // Percent-encode everything but alphanumerics, so that the value reads the same whether the
+            // receiver decodes the query as a URI component or as `application/x-www-form-urlencoded`.
+            write!(f, "{}", percent_encode(action.as_str().as_bytes(), NON_ALPHANUMERIC))?;
         }
 
         Ok(())
